@@ -211,9 +211,16 @@ def opGreedy (j : Json) : M Json := do
       | some (Json.arr a) => (a.toList.filterMap fun x => x.getNat?.toOption).filterMap (ref? n)
       | _ => List.finRange n
     let (ok, D, s) := greedy G vorder deg
+    -- `play()` once more on the same solver object: a fresh budget, the working divisor and the
+    -- script where the first call left them
+    let (ok2, D2, s2) := greedyGo G vorder (10 * n) D s
+    let again := Json.mkObj [("success", Json.bool ok2), ("script", if ok2 then jVec s2.get else Json.null),
+      ("final", if ok2 then jVec D2.get else Json.null),
+      ("certificate", if ok2 then Json.bool (allF fun v => decide (lapApply G deg s2.get v = D2.get v) && decide (0 ≤ D2.get v)) else Json.null)]
     pure <| Json.mkObj [("success", Json.bool ok), ("script", if ok then jVec s.get else Json.null),
       ("final", if ok then jVec D.get else Json.null),
       ("certificate", if ok then Json.bool (allF fun v => decide (lapApply G deg s.get v = D.get v) && decide (0 ≤ D.get v)) else Json.null),
+      ("again", again),
       ("arg", jVec deg), ("graph", jGraph G)]
 
 /-- is_winnable / EWD asked again on the same graph object after edges were added -/
